@@ -523,6 +523,9 @@ func (c *candidateBase) Priority() uint32 {
 // transportAddressEqual checks if the transport address (IP, Port, NetworkType, TCPType) is equal to another
 // candidate.
 func (c *candidateBase) transportAddressEqual(other Candidate) bool {
+	// Two candidates that both carry a resolved address are compared by it: an mDNS
+	// candidate names the transport address it resolved to, whatever its text is.
+	sameResolvedAddr := false
 	if c.addr() != other.addr() {
 		if c.addr() == nil || other.addr() == nil {
 			return false
@@ -530,10 +533,11 @@ func (c *candidateBase) transportAddressEqual(other Candidate) bool {
 		if !addrEqual(c.addr(), other.addr()) {
 			return false
 		}
+		sameResolvedAddr = true
 	}
 
 	return c.NetworkType() == other.NetworkType() &&
-		candidateAddressEqual(c.Address(), other.Address()) &&
+		(sameResolvedAddr || candidateAddressEqual(c.Address(), other.Address())) &&
 		c.Port() == other.Port() &&
 		c.TCPType() == other.TCPType()
 }
